@@ -13,3 +13,8 @@ pub fn instruction_table() -> Vec<(u8, String, usize)> {
         .map(|i| (i as u8, format!("{i:?}"), i.span()))
         .collect()
 }
+
+/// The hash the script tables use for a key (`hash_map::hash`)
+pub fn hash_value(v: &crate::value::Value) -> u64 {
+    crate::collections::hash_map::verif_hash(v)
+}
